@@ -1,21 +1,6 @@
 package mocrelay
 
-// White-box accessors for the simulator. This file is NOT part of the
-// repository: the check copies it into its scratch copy of the tree.
-
-// VerifRegistry returns the number of connections and of subscriptions the
-// router currently holds.
-func (router *RouterHandler) VerifRegistry() (conns, subs int) {
-	router.subs.subs.mu.RLock()
-	defer router.subs.subs.mu.RUnlock()
-	for _, m := range router.subs.subs.m {
-		conns++
-		m.mu.RLock()
-		subs += len(m.m)
-		m.mu.RUnlock()
-	}
-	return
-}
-
-// VerifCache returns the EventCache behind a CacheHandler.
-func (h CacheHandler) VerifCache() *EventCache { return h.h.c }
+// Intentionally (almost) empty: the checks observe RouterHandler and
+// CacheHandler through reflection (sim/simrt/reflectx.go), so no white-box
+// accessor for package mocrelay is injected any more. The file is kept so that
+// tools/build.sh stays unchanged.
